@@ -155,10 +155,13 @@ class Row:
         self.outcome = r.outcome
         self.calls = [e for e in r.trace if e.kind == "call"]
         self.reader = None
+        self.reader_flags = None
         for e in self.calls:
             nm = e.name.split("::")[-1]
             if nm.startswith("read_"):
                 self.reader = (nm, e.args)
+                fl = (e.extra or {}).get("flags") or {}
+                self.reader_flags = {fields[i]: v for i, v in fl.items() if i < len(fields)}
         # result classification
         v = r.retval
         self.result = "?"
